@@ -33,11 +33,12 @@ type CallEnv struct {
 	FaultErr       error // the error injected by Fault == "err"
 	StatesMade     int   // number of state objects generated during this call
 	Mon            *StateMonitor
-	Call           int                // index of the current call of a history (set by the driver)
-	Events         []Event            // start / end of bodies, in real order
-	SeenStates     map[string]*GState // graph path -> state object last seen by a callback of that graph
-	SeenSeq        map[string]int     // graph path -> logical time of that observation
-	StateMu        sync.Mutex         // serialises harness-side accesses to state objects
+	Call           int                  // index of the current call of a history (set by the driver)
+	Events         []Event              // start / end of bodies, in real order
+	SeenStates     map[string]*GState   // graph path -> state object last seen by a callback of that graph
+	SeenSeq        map[string]int       // graph path -> logical time of that observation
+	SeenAll        map[string][]*GState // graph path -> every distinct state object observed there
+	StateMu        sync.Mutex           // serialises harness-side accesses to state objects
 	seenSeq        int
 	Hook           func(ctx context.Context, n *NodeSpec, tag string, in string) // optional extra instrumentation
 	Cancel         context.CancelFunc                                            // called by a body with Fault == cancel
@@ -1183,6 +1184,35 @@ func (e *CallEnv) OwnedStates(sp *Spec) map[string]*GState {
 			best[owner] = e.SeenSeq[gp]
 			out[owner] = st
 		}
+	}
+	// A state is restored from the checkpoint into a new object in every call of a history, so one lineage
+	// (same Gen) is seen as several objects whose logs only grow.  A body of an earlier call that is still
+	// running (a node that does not lead to END) may be the last to touch its own, older object: within the
+	// lineage of the most recently seen object the one with the longest log is the current one.
+	owners := map[string]string{} // graph path -> owner, recomputed cheaply through out's keys
+	for gp := range e.SeenAll {
+		bestOwner, bestLen := "", -1
+		for o := range out {
+			if strings.HasPrefix(gp, o) && len(o) > bestLen {
+				bestOwner, bestLen = o, len(o)
+			}
+		}
+		if bestLen >= 0 {
+			owners[gp] = bestOwner
+		}
+	}
+	for gp, all := range e.SeenAll {
+		o, ok := owners[gp]
+		if !ok || out[o] == nil {
+			continue
+		}
+		e.StateMu.Lock()
+		for _, st := range all {
+			if st != nil && st.Gen == out[o].Gen && len(st.Log) > len(out[o].Log) {
+				out[o] = st
+			}
+		}
+		e.StateMu.Unlock()
 	}
 	return out
 }
